@@ -20,7 +20,7 @@ The rules of C09 / C10 / C16 are predicates over these sequences plus a tiny abs
 import re
 
 from lib_facts import place_str, fn_name, callee_matches
-from lib_flow import strip_refs, expr_calls, expr_str, sensitive_paths, _base_local
+from lib_flow import strip_refs, expr_calls, expr_str, sensitive_paths, _base_local, variant_facts
 from lib_inter import deep_leaves
 from roles import roles, direct_sites, callee_body, reaches, RE_PIN_SET, RE_STREAM_POLL_NEXT, RE_FUTURE_POLL
 
@@ -112,6 +112,19 @@ class AdapterModel:
         for bb, t, fn in b.calls():
             if fn and not b.is_cleanup(bb) and re.search(RE_STREAM_POLL_NEXT, fn["def"]) and callee_body(ctx.facts, fn) is not None:
                 self.inner[bb] = t
+        # "drive" calls: a crate method that is handed the Context, answers Poll<()> and answers Ready only where the collection
+        # poll inside it reported Ready(None) (`queue.poll_progress(cx)`): Pending = something in flight is pending, Ready =
+        # nothing is left running
+        self.drives = set()
+        for bb, t, fn in b.calls():
+            if not fn or b.is_cleanup(bb) or bb in self.inner:
+                continue
+            cb = callee_body(ctx.facts, fn)
+            if cb is None or not re.match(r"core::task::Poll<\(\)>$", cb.locals[0] or "") or not any("core::task::Context" in (x or "") for x in cb.locals[1:cb.arg_count + 1]):
+                continue
+            if self._drive_summary(cb):
+                self.inner[bb] = t
+                self.drives.add(bb)
         self.followers = self._follower_fields()
         self.pushes = {}
         ins = R.insert_fn
@@ -267,6 +280,31 @@ class AdapterModel:
             if ok:
                 out.add(fld)
         return out
+
+    def _drive_summary(self, cb):
+        """cb polls one of the crate's collections and returns Poll::Ready only under that poll's Ready(None)."""
+        ctx = self.ctx
+        inner = [(bb, t) for bb, t, fn in cb.calls() if fn and not cb.is_cleanup(bb) and re.search(RE_STREAM_POLL_NEXT, fn["def"])
+                 and callee_body(ctx.facts, fn) is not None]
+        if len(inner) != 1:
+            return False
+        dest = place_str(inner[0][1]["dest"])
+        fl = ctx.flow(cb)
+        vf = variant_facts(cb, fl)
+        n = 0
+        for bb in range(cb.n):
+            if cb.is_cleanup(bb):
+                continue
+            for s_ in cb.stmts(bb):
+                if s_["k"] == "assign" and s_["place"]["l"] == 0 and not s_["place"]["p"] and s_["rv"]["k"] == "aggregate" \
+                        and s_["rv"].get("adt") == "core::task::Poll" and s_["rv"].get("variant") == "Ready":
+                    n += 1
+                    fs = vf.get(bb, frozenset())
+                    if not ((dest, "Ready") in fs and ("(%s as Ready).0" % dest, "None") in fs):
+                        # the value may be carried through `ready!`'s Continue / a moved local: accept the moved-Option form
+                        if not any(v == "None" for (_, v) in fs):
+                            return False
+        return n > 0
 
     def _opt_probe(self, lab):
         """The switched value is Option::as_pin_mut of the stream field ("stream") or an Option probe of a follower field."""
@@ -430,6 +468,18 @@ class AdapterModel:
                 out = classify_poll(dest, later_know(i, dest))
                 if out is None or out == "Ready?":
                     out = self._classify_moved(path, know, i, dest, direct=True) or out
+                if bb in self.drives and out != "Pending":
+                    out = "None" if (out in ("Ready?", None) and later_know(i, dest).get(dest) == "Ready") or out in ("Ready?",) else out
+                    if out is None:
+                        # the answer is only looked at through `.is_ready()` / `.is_pending()` kept in a flag: the edge of that
+                        # flag taken further along this path tells
+                        for j in range(i, window_end(i) - 1):
+                            for lab in self.fl.edge_labels(path[j]).get(path[j + 1], []):
+                                x = lab[1]
+                                if lab[0] == "bool" and x[0] == "call" and re.search(r"Poll::<.*>::(is_ready|is_pending)$", x[1] or "") \
+                                        and any(c[3] == bb for c in expr_calls(x)):
+                                    ready = lab[2] if x[1].endswith("is_ready") else (not lab[2])
+                                    out = "None" if ready else "Pending"
                 ev.append(("I", out, bb))
         pos.extend([n] * (len(ev) - len(pos)))
         if any(pos[k] > pos[k + 1] for k in range(len(pos) - 1)):
